@@ -91,6 +91,11 @@ CLAIMED = {
         note="trusted: Lean kernel (+ propext, Quot.sound); jsonrpsee/hyper/tower delivery contract; translator gen_methods.py; WebSocket not exercised",
         technique="Lean 4 proof (middleware decision logic, induction over the batch) + regenerated method tables checked by decide + differential correspondence over real HTTP",
         ref="DESIGN.md §6 C12"),
+    "C07": dict(
+        text="Lean theorems over a hand translation of BRC20 / BRC20_Controller (checked/unchecked uint256 arithmetic, msg.sender, onlyOwner, allowances): an invariant (supply = sum of balances, supply <= 2^256-1, tokens owned by the controller, ...) holds initially and is preserved by every message from every sender; only the indexer (controller calls) or the controller (direct token calls) can change a supply, so no user message sequence mints or burns; deposit exact; withdrawal exact or no-op; transfers conserve; tie: suite K drives deposits/withdrawals through the RPC and user calls (transfer/approve/transferFrom, adversarial mint/burn/owner-only overloads, direct token calls, extreme amounts, mixed-case tickers) against the real embedded bytecode in revm; the model must predict every status, balance and supply; the harness independently audits supply = sum of holders and that supplies move only with successful deposits/withdrawals",
+        note="trusted: Lean kernel (+ propext, Classical.choice, Quot.sound); solc / the embedded bytecode and revm storage isolation validated by correspondence only; sender-address disjointness is a keccak/ECDSA hypothesis",
+        technique="Lean 4 proof (ledger invariant by induction over messages) + differential correspondence with the real contract bytecode",
+        ref="DESIGN.md §6 C07"),
 }
 PENDING_REASON = "not claimed yet in this commit: model and theorems for this property are still being built (see DESIGN.md §10 order of work)"
 
